@@ -150,8 +150,29 @@ static void run(int tier, long idx, vf_result *r)
 	goto out;
     }
     r->nontrivial = 1;
+    {
+	/* the solved terms must satisfy the documented M/S equation for
+	   every standard that was added (all shapes; the only value check
+	   for shapes vnacal_apply does not accept) */
+	int ci0 = vnacal_find_calibration(vcp, "c01");
+	long double tr = 0;
+	if (ci0 < 0 || cs_terms_residual(vcp, ci0, &sc, &tr) != 0) {
+	    vf_fail(r, "terms-inspect", "cannot inspect the solved terms");
+	    goto out;
+	}
+	if (!(tr <= 1e-8L)) {
+	    char sig[100];
+	    snprintf(sig, sizeof(sig), "terms-equation:%s",
+		    vnacal_type_to_name(types[t]));
+	    vf_fail(r, sig, "solved error terms violate the documented M/S "
+		    "matrix equation for an added standard: relative "
+		    "residual %.3Le", tr);
+	    goto out;
+	}
+    }
     if (!cs_apply_ok(&sc.vna)) {
-	vf_outcome(r, "solved %s (apply not defined for this shape)",
+	vf_outcome(r, "solved %s, terms satisfy the documented equation "
+		"(apply not defined for this shape)",
 		vnacal_type_to_name(types[t]));
 	goto out;
     }
